@@ -70,6 +70,8 @@ Judge(s, e) ==
        \* ideal package: vapour fraction against an independent Raoult's-law Rachford-Rice solution (1e-9 units; 1e-7 allowed)
        ELSE IF o.rr_dev > 100 THEN "ideal.split_differs_from_rachford_rice"
        ELSE IF o.scale_dev > a.tol THEN "scaling.products_not_proportional"
+       \* the same stream object refilled with other material and flashed again answers like a new stream holding that material
+       ELSE IF o.hist_dev > a.htol THEN "history.differs_from_new_stream"
        ELSE "ok"
   ELSE IF e.op = "tp_exact" THEN
        IF o.T6 # a.T * 1000000 \/ Abs(o.P6 - a.P * 1000000) > 1 THEN "exact.temperature_or_pressure_not_the_specified_one"
